@@ -261,7 +261,13 @@ def gen_program(exact, length):
             x, y = rng.choice(sorted(vars_)), rng.choice(sorted(vars_))
             ax, ay = atoms_of(vars_[x]), atoms_of(vars_[y])
             f = vars_[x]
+            target = f
             f += vars_[y]
+            if f is not target:
+                # x += y extends the formula x refers to: every other name for it (an alias, a list slot, the caller's
+                # variable when x is a function parameter) sees the sum
+                fail("C02:iadd-not-in-place", "after `x = <formula>; alias = x; x += y`, x is a new object: the alias still has atoms %r, x has %r; program: %s"
+                     % (dict(atoms_of(target)), dict(atoms_of(f)), "; ".join(txt + ["v%d += v%d" % (x, y)])), program="; ".join(txt + ["v%d += v%d" % (x, y)]))
             vars_[x] = f
             touched = id(f)
             ops.append("(XO (OIadd %d %d))" % (x, y))
